@@ -178,13 +178,16 @@ def rule_name_pairing(check: Check, repo) -> None:
 
 def run(tier: str) -> Check:
     check = Check("C13", tier, EXPLANATION)
-    check.rules = ["CONTEXT", "RENDER", "FURTHEST", "FAIL", "FAIL-NAMES", "FAIL-SITE", "FAILLABEL", "FAILPOS", "FRAMES", "NEG", "SUPPRESS", "FAIL-PARITY", "ESCAPE-RENDER", "LINE-OFFSET", "CASE"]
+    check.rules = ["CONTEXT", "RENDER", "CACHE-ALIAS", "FURTHEST", "FAIL", "FAIL-NAMES", "FAIL-SITE", "FAILLABEL", "FAILPOS", "FRAMES", "NEG", "SUPPRESS", "FAIL-PARITY", "ESCAPE-RENDER", "LINE-OFFSET", "CASE"]
     check.assumptions = [
         "that the line/column/source line shown are those of p: only the partition premise (LINE-OFFSET) of error_context is decided, not its arithmetic",
         "start_pos <= p relies on C16's position-write discipline and on callers passing 0 <= start_pos <= len(text)",
     ]
     repo, _ = fill(check, tier, floors={"parse_paths": 120, "skeleton_paths": 120})
     provenance(check, repo)
+    from .. import cachealias
+
+    cachealias.run(check, repo, [EXC_REL, STATE_REL])  # the rendering path keeps no list that an earlier rendering can have changed
     names_ok = fail_names(check, repo, tier)
     check.second_opinion(lambda c: rule_name_sources(c, repo), "FAIL-NAMES", names_ok)
     check.second_opinion(lambda c: rule_name_pairing(c, repo), "FAIL-NAMES", names_ok)
